@@ -108,6 +108,9 @@ func (b *ByteWrap[T]) UnmarshalCBORStream(r io.Reader, o DecoderOptions, flatten
 	r = io.LimitReader(r, int64(n))
 
 	if bs, ok := any(&b.Val).(*[]byte); ok {
+		if n >= MaxArrayDecodeLength {
+			return fmt.Errorf("byte array exceeds max size: %d", n)
+		}
 		*bs = make([]byte, n)
 		_, err := io.ReadFull(r, *bs)
 		return err
@@ -149,6 +152,9 @@ func (c *X509Certificate) UnmarshalCBORStream(r io.Reader, o DecoderOptions, fla
 		return err
 	}
 
+	if n >= MaxArrayDecodeLength {
+		return fmt.Errorf("byte array exceeds max size: %d", n)
+	}
 	der := make([]byte, n)
 	if _, err := io.ReadFull(r, der); err != nil {
 		return err
@@ -189,6 +195,9 @@ func (c *X509CertificateRequest) UnmarshalCBORStream(r io.Reader, o DecoderOptio
 		return err
 	}
 
+	if n >= MaxArrayDecodeLength {
+		return fmt.Errorf("byte array exceeds max size: %d", n)
+	}
 	der := make([]byte, n)
 	if _, err := io.ReadFull(r, der); err != nil {
 		return err
